@@ -149,3 +149,57 @@ package fs
 //@   modifies fsDataSynced
 //@   allow panic when true
 //@   ensures  replaced-atomically-and-durably: fsRenamed && fsDirSynced
+//
+// ---- hard-link snapshots (C19) ----
+// CreateHardLink's walk callback: returning filepath.SkipDir prunes everything that follows in the directory being
+// walked, so it may only answer a DIRECTORY the filter rejected; a rejected FILE is skipped alone (return nil). Thin
+// contract: the callback is run from an arbitrary state on arbitrary arguments (filepath.Walk is external).
+//@ type fs.FileInfo
+//@   ghost isDir bool
+//@ func fs.FileInfo.IsDir
+//@   property C19
+//@   assumed file metadata (external); recorded as a ghost flag of the value
+//@   pure
+//@   ensures result == recv.isDir
+//@ func fs.FileInfo.Mode
+//@   property C19
+//@   assumed file metadata (external)
+//@   pure
+//@ func filepath.Walk
+//@   property C19
+//@   assumed standard library: walks the tree rooted at root and calls fn for every entry
+//@   opt calls-back fn
+//@ func filepath.Rel
+//@   property C19
+//@   assumed pure path manipulation
+//@   pure
+//@ func filepath.Join
+//@   property C19
+//@   assumed pure path manipulation
+//@   pure
+//@ func os.MkdirAll
+//@   property C19
+//@   assumed operating system
+//@ func os.Link
+//@   property C19
+//@   assumed operating system
+//@ func os.Stat
+//@   property C19
+//@   assumed operating system
+//@   pure
+//@ func os.IsNotExist
+//@   property C19
+//@   assumed operating system
+//@   pure
+//@ func func:filter
+//@   property C19
+//@   assumed the caller's filter: an arbitrary answer
+//@   pure
+//@ func localFileSystem.CreateHardLink#filter-rule
+//@   property C19
+//@   mode int
+//@   opt only-stated
+//@   at-stmt "return filepath.SkipDir" requires only-a-rejected-directory-prunes-what-follows: info.isDir
+//@ func localFileSystem.SyncPath
+//@   property C19
+//@   assumed fsync of a path (external)
